@@ -191,7 +191,8 @@ def make_column(col, n, seed):
         arr[mask] = None
         s = pd.Series(arr, dtype=object)
     elif kind == "json":
-        v = _pool(JSON_POOL, n, rng, vals)
+        # "lists": values of one shape, which Python can order (not in the byte order of their serialised form)
+        v = _pool(JSON_POOL, n, rng, vals) if vals != "lists" else [[[10], [9], [1, 2], [2], [100, 1], [], [9, 9]][i] for i in rng.integers(0, 7, n)]
         arr = np.empty(n, dtype=object)
         for i in range(n):
             arr[i] = v[i]
